@@ -3,7 +3,8 @@
     Proofs13*.v and followed by [Print Assumptions].  Model: Model13.v (heap with the implementation's link
     fields; the kidOK table and the numeric codes are regenerated from /repo on every run).  Spec: Spec13.v. *)
 From Coq Require Import NArith List Bool Arith.
-From XV Require Import Base.XDefs Gen.GenKidOK C13.Ops13 C13.Spec13 C13.Model13 C13.Abs13 C13.Proofs13a C13.Proofs13b C13.Proofs13c C13.Proofs13d C13.Proofs13e.
+From XV Require Import Base.XDefs Gen.GenKidOK C13.Ops13 C13.Spec13 C13.Model13 C13.Abs13 C13.Proofs13a C13.Proofs13b C13.Proofs13c C13.Proofs13d C13.Proofs13e
+  C13.Proofs13f C13.Proofs13g C13.Proofs13h C13.Proofs13i C13.Proofs13j C13.Proofs13k.
 Import ListNotations.
 
 (** tie to the source: the regenerated kidOK table is the DOM structure model *)
@@ -165,3 +166,65 @@ Theorem T13_rename_ns_error_changes_name_refuted :
   r = RErr NAMESPACE /\ n_name (nd h 2) = [112; 58; 98]%N /\ n_name (nd h1 2) = [113; 58]%N.
 Proof. vm_compute. repeat split; reflexivity. Qed.
 Print Assumptions T13_rename_ns_error_changes_name_refuted.
+
+(** ------------------------------------------------------------------------------------------------------------
+    T13_wf_preserved -- the FULL invariant of the property's first clause.
+    [WFheap h] = [WFup h] (above) + [exists ks, WFsib h ks] (Proofs13f.v): for every node p the child chain is a list
+    ks p without repetition of live nodes such that fFirstChild is its head, every element is owned by p with OWNED set,
+    nextSibling is the successor, previousSibling the predecessor, the head's previousSibling is the LAST child
+    (circular), FIRSTCHILD is set on the head only; every OWNED node is in the chain of its owner; a node that is not
+    OWNED has no siblings and no FIRSTCHILD flag.
+    Proved for createX, insertBefore, appendChild, removeChild, replaceChild (DocumentFragment operands included,
+    any target incl. Document/Attr, ARBITRARY operands), all character-data operations and the attribute operations
+    ([link_op]); for cloneNode, normalize, splitText and renameNode only T13_wf_preserved_partial (the upward half)
+    is proved -- they are compositions of the operations proved here, the composition lemmas are not done. *)
+Theorem T13_wf_preserved : forall h o h' r, WFheap h -> link_op o = true -> step h o = (h', r) ->
+  WFheap h' /\ length h <= length h'.
+Proof. exact step_GW. Qed.
+Print Assumptions T13_wf_preserved.
+
+(** lifted to every heap reachable from n empty documents by any sequence of those operations *)
+Theorem T13_wf_reachable : forall n l h rs, forallb link_op l = true -> run_cfg cfg_fixed (init_heap n) l = (h, rs) -> WFheap h.
+Proof. intros n l h rs Hl. apply run_WFheap; [apply WFheap_init|exact Hl]. Qed.
+Print Assumptions T13_wf_reachable.
+
+(** the two primitives on their own (used by every composite operation) *)
+Theorem T13_link_remove_wf : forall h ks this old, WFsib h ks -> this < length h -> old < length h ->
+  n_owned (nd h old) = true -> n_owner (nd h old) = this ->
+  WFsib (link_remove h this old) (ks_set ks this (remove_id old (ks this))).
+Proof. exact WFsib_link_remove. Qed.
+Print Assumptions T13_link_remove_wf.
+
+Theorem T13_link_insert_wf : forall h ks this new ref, WFsib h ks -> this < length h -> new < length h -> new <> this ->
+  n_owned (nd h new) = false -> (forall r, ref = Some r -> In r (ks this)) ->
+  WFsib (link_insert h this new ref) (ks_set ks this (insert_before ref new (ks this))).
+Proof. exact WFsib_link_insert. Qed.
+Print Assumptions T13_link_insert_wf.
+
+(** the fuel of the model's firstChild/nextSibling walk suffices: [kids] is exactly the chain of the invariant, it lists
+    exactly the nodes owned by p, and lastChild (= firstChild.previousSibling) is its last element.  Note that the new
+    child lists of the two primitives are the reference DOM's [remove_id] / [insert_before] (Spec13), so these theorems
+    are the link-level half of T13_refines: kids (link_insert h p c ref) p = insert_before ref c (kids h p). *)
+Theorem T13_kids_exact : forall h ks p, WFsib h ks -> p < length h -> kids h p = ks p.
+Proof. exact kids_exact. Qed.
+Print Assumptions T13_kids_exact.
+
+Theorem T13_kids_are_the_owned : forall h ks p c, WFsib h ks -> p < length h -> c < length h ->
+  (In c (kids h p) <-> n_owned (nd h c) = true /\ n_owner (nd h c) = p).
+Proof. exact kids_are_the_owned. Qed.
+Print Assumptions T13_kids_are_the_owned.
+
+Theorem T13_last_child : forall h ks p, WFsib h ks -> p < length h ->
+  last_child h p = match kids h p with [] => None | f :: r => Some (last r f) end.
+Proof. exact last_child_is_last. Qed.
+Print Assumptions T13_last_child.
+
+(** non-vacuity: the heap of T13_wf_nonvacuous without its clone is reachable by link operations only, hence WFheap *)
+Example T13_wfheap_nonvacuous :
+  let l := [OCreate 0 TElem A []; OAppend 0 2; OCreate 0 TElem A []; OAppend 2 3; OCreate 0 TText [] X; OAppend 3 4;
+            OCreate 0 TFrag [] []; OCreate 0 TComment [] X; OAppend 5 6; OInsertBefore 3 5 (Some 4); OReplace 2 4 3; OAppend 4 2] in
+  let '(h, rs) := run_cfg cfg_fixed (init_heap 2) l in
+  kids h 2 = [4] /\ kids h 3 = [6] /\ last rs ROk = RErr HIERARCHY /\ WFheap h.
+Proof. cbv zeta. destruct (run_cfg _ _ _) as [h rs] eqn:E. split; [|split; [|split]];
+  try (vm_compute in E; injection E as <- <-; vm_compute; reflexivity).
+  eapply run_WFheap; [apply (WFheap_init 2)| |exact E]. reflexivity. Qed.
